@@ -16,7 +16,7 @@ RULE = ("random cfg-free definitions over the documented language (all object ki
         "`cargo check` per batch with every diagnostic mapped to its definition; distinct = distinct feature vectors "
         "(object kinds, depth, refs, conversions, accesses, address types, stride signs)")
 
-KNOWN_CLASSES = ("D7", "D8", "D9", "D12", "D16", "D17", "D20")
+KNOWN_CLASSES = ("D7", "D8", "D9", "D12", "D16", "D17", "D20", "D21")
 
 
 def features(d):
@@ -60,8 +60,6 @@ def predicted_classes(d):
                     cls.add("D7")
                 c = fl["conv"]
                 if c and c["type"] == "enum":
-                    if c["name"] in toplevel:
-                        cls.add("D20")
                     nums = []
                     nxt = 0
                     for v in c["variants"]:
@@ -142,6 +140,46 @@ def declared_vs_emitted(d, facts):
     return bad
 
 
+def inject_identifier_clash(rng, d):
+    """D20 / D21: identifiers of the OUTPUT that names_unique does not look at."""
+    cfg = d["config"]
+    at = cfg.get("register_address_type") or "u8"
+    lo, hi = adef.INT_RANGE[at]
+    used = {o.get("address") for o, _ in adef.walk(d["objects"]) if o["kind"] == "register"}
+    free = [a for a in (hi - 3, hi - 5, 99, 77, 55, 33) if lo <= a <= hi and a not in used and a - 1 not in used]
+
+    def reg(name, addr, fields):
+        return adef.mk_register(name, addr, 8, fields)
+    how = rng.choice(["enum_toplevel", "fieldset_name", "snake_methods", "setter_getter", "field_new", "object_interface",
+                      "kw_field", "kw_object", "kw_self"])
+    if how == "enum_toplevel":
+        return rename_enum_like_toplevel(rng, d)
+    if not free:
+        return
+    a = free[0]
+    if how == "fieldset_name":
+        cmds = [o for o, _ in adef.walk(d["objects"]) if o["kind"] == "command" and o.get("size_bits_in")]
+        if cmds:
+            d["objects"].append(reg(cmds[0]["name"] + "FieldsIn", a, [adef.mk_field("val", "uint", 0, 8)]))
+    elif how == "snake_methods":
+        d["objects"].append(reg("aB1c", a, [adef.mk_field("val", "uint", 0, 8)]))
+        d["objects"].append(reg("ab1c", a - 1, [adef.mk_field("val", "uint", 0, 8)]))
+    elif how == "setter_getter":
+        d["objects"].append(reg("Rzy", a, [adef.mk_field("val", "uint", 0, 4, access="RW"), adef.mk_field("set_val", "uint", 4, 8, access="RW")]))
+    elif how == "field_new":
+        d["objects"].append(reg("Rzy", a, [adef.mk_field(rng.choice(["new", "new_zero"]), "uint", 0, 4, access="RW")]))
+    elif how == "object_interface":
+        d["objects"].append(reg(rng.choice(["Interface", "ReadAllRegisters", "New"]), a, [adef.mk_field("val", "uint", 0, 8)]))
+    elif how == "kw_field":
+        d["objects"].append(reg("Rzy", a, [adef.mk_field(rng.choice(["fn", "type", "match", "loop"]), "uint", 0, 4, access="RW")]))
+        d["_manifest_only"] = True
+    elif how == "kw_object":
+        d["objects"].append(reg(rng.choice(["Match", "Loop", "Type", "Move"]), a, [adef.mk_field("val", "uint", 0, 8)]))
+    elif how == "kw_self":
+        d["objects"].append(reg("Self", a, [adef.mk_field("val", "uint", 0, 8)]))
+        d["_manifest_only"] = True
+
+
 def rename_enum_like_toplevel(rng, d):
     """D20: names_unique keeps objects and generated enums in separate namespaces, the emitted file does not: give one
     inline enum the name of a block (or of the driver struct)."""
@@ -198,9 +236,11 @@ def run(ctx):
         d = gendev.gen_device(rng, prof)
         if rng.random() < 0.5:
             add_boundary_literal(rng, d)
-        if rng.random() < 0.06:
-            rename_enum_like_toplevel(rng, d)
+        if rng.random() < 0.10:
+            inject_identifier_clash(rng, d)
         syntax = rng.choice(["dsl", "dsl", "json", "yaml", "toml"])
+        if d.pop("_manifest_only", False) and syntax == "dsl":
+            syntax = rng.choice(["json", "yaml", "toml"])
         if syntax != "dsl":
             # manifests cannot express u128 reset integers
             for o, _ in adef.walk(d["objects"]):
@@ -208,11 +248,32 @@ def run(ctx):
                     o["reset_value"] = o["reset_value"] % (2 ** 63)
         cid = f"m{len(cases)}"
         defs[cid] = d
-        cases.append({"id": cid, "syntax": syntax, "text": adef.render(d, syntax, rng), "name": "Dev", "want": ["facts", "pretty"]})
+        cases.append({"id": cid, "syntax": syntax, "text": adef.render(d, syntax, rng), "name": "Dev", "want": ["mir", "facts", "pretty"]})
     res = gen_common.run_gen(ctx, exe, cases)
     hist = collections.Counter()
     accepted = []
     viol = []
+    # ---- the Coq model's verdict on the real MIR of every accepted definition: which obligation of wf_output fails
+    terms = []
+    for c in cases:
+        r = res[c["id"]]
+        if gen_common.canon_status(r) == "ok":
+            try:
+                t = gen_common.mir_term(r)
+            except Exception:
+                t = None
+            if t:
+                terms.append((c["id"], f'"Dev"%string (Names.names_normalized ({t}))'))
+    pre = ("From Coq Require Import ZArith List Bool String.\nFrom DD Require Import Common Mir GenErr Emit.\nFrom DD Require Names.\n"
+           "Import ListNotations.\nOpen Scope string_scope.\nOpen Scope Z_scope.\n")
+    mraw = vlib.coq_eval_strings(ctx, pre, [(i, "show_obligations " + t) for i, t in terms], shard_size=40, tag="c19model")
+    model_cls = {}
+    for cid, v in mraw.items():
+        if v.startswith("<<COQ-ERROR"):
+            viol.append(([c for c in cases if c["id"] == cid][0], "model evaluation failed", v[:300]))
+        else:
+            model_cls[cid] = set(x for x in v.split(",") if x)
+    parse_known = collections.Counter()
     for c in cases:
         r = res[c["id"]]
         st = gen_common.canon_status(r)
@@ -222,9 +283,17 @@ def run(ctx):
         if st != "ok":
             continue
         if not r.get("parse_ok"):
+            if "D21" in model_cls.get(c["id"], ()) and "D21" in known:
+                parse_known["D21"] += 1      # a Rust keyword written as an identifier: the recorded way this class fails
+                continue
             viol.append((c, "output is not a syntactically valid Rust file", r.get("parse_error")))
             continue
-        bad = declared_vs_emitted(defs[c["id"]], r["facts"])
+        if "D21" in model_cls.get(c["id"], ()):
+            viol.append((c, "Emit.v predicts a keyword identifier (D21) but the output parses as Rust: the model of the emitted identifiers "
+                            "no longer matches the emitter", sorted(model_cls[c["id"]])))
+            continue
+        # (the accessor-name oracle below knows simple names only; the injected clash names are judged by the model)
+        bad = [] if ({"D20", "D21"} & model_cls.get(c["id"], set())) else declared_vs_emitted(defs[c["id"]], r["facts"])
         if bad:
             viol.append((c, "accessors do not match the declared objects", bad[:3]))
         if len(accepted) < want_n:
@@ -239,9 +308,19 @@ def run(ctx):
     other_errors = []
     mods = {}
     LINT = {"D17"}
-    for crate, group in (("c19clean", [c for c in accepted if not predicted_classes(defs[c["id"]])]),
-                         ("c19lint", [c for c in accepted if predicted_classes(defs[c["id"]]) and predicted_classes(defs[c["id"]]) <= LINT]),
-                         ("c19known", [c for c in accepted if predicted_classes(defs[c["id"]]) - LINT])):
+    PY = {"D7", "D9", "D12", "D16", "D17"}          # classes the python oracle computes from the abstract definition
+    pred_of = {}
+    for c in accepted:
+        cid = c["id"]
+        py = predicted_classes(defs[cid])
+        mc = model_cls.get(cid)
+        if mc is not None and (py & PY) != (mc & PY):
+            viol.append((c, "Emit.v on the real MIR and the oracle on the abstract definition disagree on the failing obligations",
+                         {"model": sorted(mc), "oracle": sorted(py)}))
+        pred_of[cid] = py | (mc or set())
+    for crate, group in (("c19clean", [c for c in accepted if not pred_of[c["id"]]]),
+                         ("c19lint", [c for c in accepted if pred_of[c["id"]] and pred_of[c["id"]] <= LINT]),
+                         ("c19known", [c for c in accepted if pred_of[c["id"]] - LINT])):
         gm = {c["id"]: res[c["id"]]["pretty"] for c in group}
         mods.update(gm)
         if not gm:
@@ -272,14 +351,17 @@ def run(ctx):
     known_seen = collections.Counter()
     for c in accepted:
         cid = c["id"]
-        pred = predicted_classes(defs[cid])
+        pred = pred_of[cid]
         errs = per_mod.get(cid, [])
         kinds = {classify_error(e) for e in errs}
+        if not errs and model_cls.get(cid):
+            viol.append((c, "Emit.v predicts that this output does not compile (failing obligation) but rustc accepts it: the model of "
+                            "the emitted items no longer matches the emitter", sorted(model_cls[cid])))
         hist["compile_" + ("ok" if not errs else "error")] += 1
         if "D9" in kinds and "D9" not in pred and "D20" in pred:      # same rustc codes (E0428 ...): a duplicated top-level name
             kinds = (kinds - {"D9"}) | {"D20"}
             if "D20" in known:          # everything else in that module is a consequence of the name being defined twice
-                kinds = {k for k in kinds if not k.startswith("other:")}
+                kinds = {k for k in kinds if k == "D20" or k in pred}
         unexpected = [k for k in kinds if not (k in pred and k in known)]
         if unexpected:
             e0 = ([e for e in errs if classify_error(e) in unexpected] or errs)[0]
@@ -290,6 +372,7 @@ def run(ctx):
                 known_seen[k] += 1
     if other_errors and not per_mod:
         viol.append(({"syntax": None, "text": ""}, "probe crate failed outside the generated modules", other_errors[:3]))
+    known_seen.update(parse_known)
     for k, n in sorted(known_seen.items()):
         vlib.known_finding(ctx, known[k], f"{n} accepted definition(s) of this class fail to compile as recorded")
     if viol:
